@@ -292,6 +292,12 @@ func renderStep(s HStep, h *hconn, host, scheme, peerSession string, portBase in
 	for _, x := range s.Hdrs {
 		if x[1] == "\x00DEL" {
 			del(x[0])
+		} else if x[1] == "\x00VALID-KEYMGMT" {
+			// the key exchange header of a secure conversation, valid for this very request (spliced into whatever
+			// conversation the step belongs to)
+			if hv, err := validKeyMgmtFor(uri); err == nil && len(hv) == 1 {
+				set(x[0], hv[0])
+			}
 		} else {
 			set(x[0], x[1])
 		}
